@@ -933,7 +933,7 @@ func c07FieldSpecs(thorough bool) []c07Field {
 
 // per-field JSON values; "" = the field is absent
 var c07ValuesQuick = []string{"", "null", "1", "0", "1.0", "1.5", `"s"`, `""`, "true", "false",
-	"[]", "[1]", `["s"]`, "{}", `{"a":1}`, `{"a":"s"}`, `{"a":null}`}
+	"[]", "[1]", `["s"]`, "[1,1.5]", `[1,2,"s"]`, "{}", `{"a":1}`, `{"a":"s"}`, `{"a":null}`}
 
 var c07ValuesThoroughExtra = []string{"-1", "1e2", `"1"`, `[1,"s"]`, "[null]", "[1.5]", "[[1]]", "[{}]", `[{"a":1}]`, `[{"a":null}]`,
 	`{"a":1.5}`, `{"a":"s","b":1}`, `{"a":"s","b":"s"}`, `{"a":[1]}`, `{"a":["s"]}`, `{"a":{"z":1}}`, `{"a":{"z":null}}`, `{"a":{}}`}
@@ -1155,9 +1155,9 @@ func c07RetTypes(thorough bool) []c07Type {
 	return out
 }
 
-var c07ShapesQuick = []string{"1", "0", "1.5", `"s"`, `""`, "true", "false", "null", "[]", "[1]", `["s"]`, `[1,"s"]`, "{}", `{"a":1}`, `{"a":"s"}`, `{"a":null}`,
+var c07ShapesQuick = []string{"1", "0", "1.5", `"s"`, `""`, "true", "false", "null", "[]", "[1]", `["s"]`, `[1,"s"]`, "[1,1.5]", "[1,2,2.5]", "{}", `{"a":1}`, `{"a":"s"}`, `{"a":null}`,
 	`[{"a":1}]`, `[{"a":"s"}]`, "[{}]", `[{"a":null}]`}
-var c07ShapesExtra = []string{"-1", "[[1]]", `[["s"]]`, `{"a":"s","b":{"a":1}}`, `{"a":"s","b":{"a":"s"}}`, `{"a":"s","b":{}}`, `{"a":"s","b":null}`, `{"a":1.5}`, `[{"a":1},{"a":"s"}]`, "[1,1.5]"}
+var c07ShapesExtra = []string{"-1", "[[1]]", `[["s"]]`, `{"a":"s","b":{"a":1}}`, `{"a":"s","b":{"a":"s"}}`, `{"a":"s","b":{}}`, `{"a":"s","b":null}`, `{"a":1.5}`, `[{"a":1},{"a":"s"}]`, "[1.5,1]"}
 
 func c07ReturnWork(thorough bool) []c07Work {
 	var out []c07Work
